@@ -44,7 +44,7 @@ var hostsIPs = []string{"0.0.0.0", "127.0.0.1", "192.168.1.1", "10.0.0.255", "::
 	// fully written-out forms: up to 45 characters without a zone
 	"0000:0000:0000:0000:0000:0000:0000:0001", "fe80:0000:0000:0000:0000:0000:0000:0001", "0000:0000:0000:0000:0000:ffff:192.168.100.200",
 	"2001:0db8:0000:0000:0000:0000:192.168.100.200", "0:0:0:0:0:ffff:192.168.100.200", "2001:0db8:85a3:0000:0000:8a2e:0370:7334"}
-var hostsNames = []string{"example.org", "a.example.org", "localhost", "ads.example.net", "x", "tracker.io", "test.com", "foo.co.uk", "my-host", "under_score.example", "UPPER.example.org", "1.2.3.4", "a.b.c.d.e", "xn--e1afmkfd.xn--p1ai", "example.or", "example.orgx"}
+var hostsNames = []string{"example.org", "a.example.org", "localhost", "ads.example.net", "x", "tracker.io", "test.com", "foo.co.uk", "my-host", "under_score.example", "UPPER.example.org", "1.2.3.4", "a.b.c.d.e", "xn--e1afmkfd.xn--p1ai", "example.or", "example.orgx", "fqdn.example.net.", "dot."}
 
 func genHostsLine(g *Gen) (line, ip string, names []string) {
 	sep := func() string {
@@ -141,7 +141,9 @@ func init() {
 				}
 				probes = append(probes, names...)
 				if len(names[0]) > 1 {
-					probes = append(probes, names[0][:len(names[0])-1], names[0]+"x")
+					// spellings that are NOT the listed name: one character less or more, a trailing dot, a leading dot,
+					// another letter case
+					probes = append(probes, names[0][:len(names[0])-1], names[0]+"x", names[0]+".", "."+names[0], strings.ToUpper(names[0]), strings.TrimSuffix(names[0], "."))
 				}
 				emit(hx(line) + "\t" + hx(ip) + "\t" + encList(names) + "\t" + encList(probes))
 			}
